@@ -69,6 +69,11 @@ type Document struct {
 	// familiesMutex guards families when it is looked up from several
 	// goroutines.
 	familiesMutex sync.Mutex
+
+	// familyEdits counts the changes to the members of any family. What an
+	// individual remembers about its families and spouses is only good for
+	// the count it was looked up at.
+	familyEdits int
 }
 
 // String will render the entire GEDCOM document.
